@@ -158,6 +158,14 @@ func (s *Server) servePacket(pc net.PacketConn) error {
 					}(conn)
 				}
 				select {
+				case <-conn.done:
+					// already closed: do not queue the packet on a dead connection
+					// (select would pick at random if readCh has room as well)
+					delete(udpConns, pkt.addr.String())
+					continue
+				default:
+				}
+				select {
 				case conn.readCh <- &pkt:
 					delivered = true
 				case <-conn.done:
